@@ -32,7 +32,9 @@ class Prop(BaseProp):
             "(fi ligature, Angstrom sign, squared units), CJK / Japanese with ideographic space, empty passphrase, passphrase starting with a combining "
             "mark, long strings; the arguments handed to unicodedata.normalize and hashlib.pbkdf2_hmac are logged from outside and the seed is "
             "recomputed independently by the driver (own NFKD, salt 'mnemonic'+passphrase, 2048 rounds). Routes: the five constructors x both "
-            "networks on one mnemonic each; master key material compared. Non-trivial = distinct (case, output).")
+            "networks on one mnemonic each; master key material compared. MnRoute: BaseWallet.from_mnemonic on text with irregular white space "
+            "(trailing newline, doubled / tab / CRLF / U+3000 / NBSP / U+2028 separators, upper case) x both networks: master key material must equal the "
+            "driver's independent PBKDF2 + HMAC of exactly the given text, and wallet.mnemonic the given text. Non-trivial = distinct (case, output).")
     extra_trusted = ["unicodedata.normalize, str.encode('utf-8') and hashlib.pbkdf2_hmac are external: the model takes them as oracle tables logged "
                      "from the run; the driver recomputes the expected seed with its own calls to the same standard-library primitives"]
 
@@ -54,6 +56,13 @@ class Prop(BaseProp):
         for j in range(3 if T else 2):
             e = bytes(rng.randrange(256) for _ in range(rng.choice([16, 24, 32]))).hex()
             cases.append({"kind": "Routes", "entropy": e, "password": ["", "péss Å", "TREZOR"][j % 3]})
+        # from_mnemonic on text whose white space is irregular: the seed must come from exactly the text given
+        mn2 = mnemonic_from_entropy(bytes(rng.randrange(256) for _ in range(16)).hex())
+        w = mn2.split(" ")
+        variants = [mn2, mn2 + "\n", " " + mn2, mn2.replace(" ", "  ", 1), "\t".join(w), "\u3000".join(w), "\u00a0".join(w),
+                    "\r\n".join(w), "\u2028".join(w), mn2 + " ", mn2.upper()]
+        for j, m in enumerate(variants if T else variants[:8]):
+            cases.append({"kind": "MnRoute", "mnemonic": m, "password": ["", "TREZOR", " p "][j % 3]})
         return cases
 
     def run_impl(self, case):
@@ -71,6 +80,23 @@ class Prop(BaseProp):
                                       ("mnemonic" + unicodedata.normalize("NFKD", case["password"])).encode("utf-8"), 2048).hex()
             nf, u8, pb = tables(rec, [])
             return {"ob": seed, "exp": exp, "nf": nf, "u8": u8, "pb": pb, "err": seed is None}
+        if k == "MnRoute":
+            import hmac as _hmac
+            rec = Recorder()
+            obs = []
+            with rec.installed():
+                for t in (False, True):
+                    try:
+                        w = BaseWallet.from_mnemonic(case["mnemonic"], case["password"], testnet=t)
+                        obs.append([w.master.key.hex(), w.master.chain_code.hex(), w.mnemonic])
+                    except Exception:
+                        obs.append(None)
+            seed = hashlib.pbkdf2_hmac("sha512", unicodedata.normalize("NFKD", case["mnemonic"]).encode("utf-8"),
+                                       ("mnemonic" + unicodedata.normalize("NFKD", case["password"])).encode("utf-8"), 2048)
+            I = _hmac.new(b"Bitcoin seed", seed, hashlib.sha512).digest()
+            nf, u8, pb = tables(rec, [])
+            return {"obs": obs, "exp": [I[:32].hex(), I[32:].hex()], "or": c_oracles(rec), "nf": nf, "u8": u8, "pb": pb,
+                    "err": any(o is None for o in obs)}
         rec = Recorder()
         obs = []
         with rec.installed():
@@ -95,6 +121,10 @@ class Prop(BaseProp):
         if case["kind"] == "Seed":
             return '(Seed %s %s %s %s %s %s "%s")' % (obs["nf"], obs["u8"], obs["pb"], zs(case["mnemonic"]), zs(case["password"]),
                                                      cres(obs["ob"], lambda x: '"%s"' % x), obs["exp"])
+        if case["kind"] == "MnRoute":
+            return '(MnRoute %s %s %s %s %s %s [%s] "%s" "%s")' % (
+                obs["or"], obs["nf"], obs["u8"], obs["pb"], zs(case["mnemonic"]), zs(case["password"]),
+                ";".join(cres(o, lambda p: '("%s", "%s", %s)' % (p[0], p[1], zs(p[2]))) for o in obs["obs"]), obs["exp"][0], obs["exp"][1])
         return "(Routes %s %s %s %s %s %s %s [%s])" % (obs["or"], obs["nf"], obs["u8"], obs["pb"], zs(case["entropy"]), zs(obs["mnemonic"]),
                                                        zs(case["password"]), ";".join(cres(o, lambda p: '("%s", "%s")' % tuple(p)) for o in obs["obs"]))
 
